@@ -754,16 +754,10 @@ func (e *Engine) instrEffects(sc *FnCtx, fn *ssa.Function, in ssa.Instruction, e
 		}
 	case *ssa.Next:
 		if r, ok := x.Iter.(*ssa.Range); ok {
-			n := 0
-			for _, b := range fn.Blocks {
-				for _, i2 := range b.Instrs {
-					if r2, ok := i2.(*ssa.Range); ok {
-						n++
-						if r2 == r {
-							// ghost name must match Frame.rangeInit; depth is filled by the caller
-							eff.ranges[fmt.Sprintf("visited.%s.", sanitize(fn.Name()))+fmt.Sprint(n)] = true
-						}
-					}
+			// ghost name must match Frame.rangeInit (ranges numbered in source order)
+			for i, r2 := range rangesInSourceOrder(fn) {
+				if r2 == r {
+					eff.ranges[fmt.Sprintf("visited.%s.", sanitize(fn.Name()))+fmt.Sprint(i+1)] = true
 				}
 			}
 		}
